@@ -980,10 +980,15 @@ func (r *Reader) parseBodyElementsInOrder(data []byte) error {
 	decoder := xml.NewDecoder(strings.NewReader(string(data)))
 	var inBody bool
 	var paraIndex, tableIndex int
+	var sdtParaIndex, sdtTableIndex int
 	// depth of the current element below <w:body>: Body.Paragraphs and Body.Tables hold
 	// the body's direct children only, so paragraphs inside table cells (and tables
 	// nested in cells) must not be counted
 	depth := 0
+	// A block-level content control wraps body content in <w:sdt><w:sdtContent>; the
+	// two wrappers are transparent: what they hold sits at body level, and
+	// sdtWrappers counts how many of them (0, 1 = sdt, 2 = sdtContent) are open
+	sdtWrappers := 0
 
 	for {
 		token, err := decoder.Token()
@@ -1003,12 +1008,41 @@ func (r *Reader) parseBodyElementsInOrder(data []byte) error {
 				continue
 			}
 
+			if depth == 0 && ((sdtWrappers == 0 && t.Name.Local == "sdt") || (sdtWrappers == 1 && t.Name.Local == "sdtContent")) {
+				sdtWrappers++
+				continue
+			}
+
 			depth++
 			if depth != 1 {
 				continue
 			}
+			if sdtWrappers == 1 {
+				continue // <w:sdtPr> and the like: properties of the control, not content
+			}
 
 			// Track elements in order
+			if sdtWrappers == 2 {
+				switch t.Name.Local {
+				case "p":
+					if sdtParaIndex < len(r.document.Body.SdtParagraphs) {
+						r.document.Body.Elements = append(r.document.Body.Elements, bodyElement{
+							Type:      "paragraph",
+							Paragraph: &r.document.Body.SdtParagraphs[sdtParaIndex],
+						})
+						sdtParaIndex++
+					}
+				case "tbl":
+					if sdtTableIndex < len(r.document.Body.SdtTables) {
+						r.document.Body.Elements = append(r.document.Body.Elements, bodyElement{
+							Type:  "table",
+							Table: &r.document.Body.SdtTables[sdtTableIndex],
+						})
+						sdtTableIndex++
+					}
+				}
+				continue
+			}
 			switch t.Name.Local {
 			case "p":
 				if paraIndex < len(r.document.Body.Paragraphs) {
@@ -1030,6 +1064,8 @@ func (r *Reader) parseBodyElementsInOrder(data []byte) error {
 		case xml.EndElement:
 			if inBody && depth > 0 {
 				depth--
+			} else if inBody && sdtWrappers > 0 && (t.Name.Local == "sdt" || t.Name.Local == "sdtContent") {
+				sdtWrappers--
 			} else if t.Name.Local == "body" {
 				inBody = false
 			}
